@@ -1,18 +1,20 @@
 """Object idioms for harness/translate.py — `FnObj`, the translator class of specs with `dialect='obj'` (the text produced
 for every other spec is unchanged; everything not listed here or in translate.py still raises Untranslatable).
 
-  * OPTIONAL VALUES.  A parameter / attribute of kind 'opt' may be None: it is an `Option α`.  A local assigned `None` is
-    optional from there on.  A parameter of kind 'none' IS None in the translated call shape (it does not appear in the Lean
-    signature); every other declared kind is never None.
+  * OPTIONAL VALUES.  A parameter / attribute of kind 'opt' may be None: it is an `Option α` ('optpair': `Option (α × α)`).
+    A local assigned `None` is optional from there on.  A parameter of kind 'none' IS None in the translated call shape (it
+    does not appear in the Lean signature); every other declared kind is never None.
       - `x is None` / `x is not None` is decided by the kind where the kind decides it (then only the live branch of an `if`
         exists), and is `x.isNone` for an optional value;
       - `if x is None: …` / `if x is not None: … else: …` on an optional `x` is a `match x with | none => … | some x => …`
         (inside the `some` branch `x` is a plain value);
       - a variable that is possibly None after one branch of an `if` is optional after the `if` (`some v` on the other path);
       - a statement that USES the value of a possibly-None variable (arithmetic, argument of a non-optional parameter) is
-        `match x with | none => <raise_value> | some x => <the statement and the rest of the block>`: Python raises a
-        TypeError there; `raise_value` (spec) is the total value the function takes when it raises.  (Only at the top level
-        of the function body and in returning branches, where "the rest of the block" is the rest of the function.)
+        `match x with | none => <raise> | some x => <the statement and the rest of the block>`: Python raises a TypeError
+        there.  At function level <raise> is the spec's `raise_value` (the total value of the function when it raises;
+        `raises='option'`: the result type is `Option T`, a raise is `none`, a return `some v`).  Inside a branch or a loop
+        body the enclosing conditional / fold is translated in OPTION FORM: its value is `Option state`, `none` once it has
+        raised, and the code after it runs under `| some st =>` (the raise propagates outwards to the function level).
   * `try: <one assignment> except E: <handler>` is `if raised_E then <handler> else <assignment>`: whether the assignment
     raises E is a Bool PARAMETER `raised_E` of the translation (a second `try … except E` in the same function: `raised_E_2`).
     The tie theorem says for which inputs the flag is what.
@@ -20,16 +22,46 @@ for every other spec is unchanged; everything not listed here or in translate.py
     dispatches to (what the MRO / the receiver's class resolves it to; the tie theorem documents it).  Arguments are bound by
     position and keyword; every parameter must be given.  A call statement of a translated STATE method (spec `state=[…]`:
     the attributes it assigns, its result) re-binds those attributes in the caller, which must declare them as state too.
-  * `[f(x) for x in p]` over a declared pair `p` is the pair of the two values.
-  * LISTS (kind 'list', `List α`; 1-D numpy arrays / Python lists of numbers that the model treats as lists):
-      - element-wise `+ - * /` of two lists (`List.zipWith`; numpy requires equal lengths, so no element is dropped on inputs
-        numpy accepts) and of a list and a scalar (`List.map`), unary minus, `**k`, exp/log/log10/sqrt of a list (`List.map`),
-        `x.ravel()` / `np.asarray(x)` / `np.array(x)` of a 1-D list (the list), `.tolist()`;
+  * FRAGMENTS.  `inner='name'`: the function of that name defined inside the method (a closure handed to a sampler);
+    `closure=[…]` variables of the enclosing scope assigned exactly once at its top level (that assignment is executed
+    first), `closure_params=[…]` enclosing variables that become parameters.  `loop_body='<text of the iterable>'`: ONE
+    ITERATION of that (unique) `for` loop as a function of the loop variables and `free=[…]`; its value is the dict the
+    iteration stores — `result='name'` (a dict local filled by `name['key'] = e`) or `result='{}'` (a dict display stored by
+    the last statement) — as the tuple of the values in the ORDER OF THE KEYS; the generated `<lean>_keys : List String`
+    lists the keys (`dict_skip` leaves keys out).
+  * `[f(x) for x in p]` over a declared pair `p` is the pair of the two values; `y = x` for an object / optional / index
+    array gives the value another name.
+  * LISTS (kind 'list', `List α`; 1-D numpy arrays / Python lists of numbers that the model treats as lists; 'list2' a 2-D
+    array as the list of its rows; 'natlist' an index array):
+      - element-wise `+ - * /`, unary minus, `**k`, exp/log/log10/sqrt: operations on ONE underlying list are fused into one
+        `List.map`, two different lists meet in `List.zipWith` (numpy requires equal lengths — or a length-1 operand, which
+        is outside the modelled inputs — so nothing is dropped on inputs numpy accepts), a scalar operand broadcasts;
+        `x.ravel()` / `.copy()` / `.tolist()` / `np.asarray(x)` / `np.array(x)` / `tuple(x)` / `list(x)` of a 1-D list: the list;
       - `np.sum(l)` / `l.sum()` / `sum(l)`: the left fold of `+` from 0 in index order (numpy's pairwise order differs by
-        rounding only — the same documented reading as in the models);
-      - `len(l)` ↦ `l.length`, `l[-1]` ↦ `l.getLastD 0`-free form `(l.getLast?)` is NOT used: a declared external instead;
-      - declared list-valued externals (`list_externals={'np.argsort': ('argsort', ['list'], 'natlist')}` …): function
-        parameters whose documented behaviour the tie theorem supplies as hypotheses or instances."""
+        rounding only — the same documented reading as in the models); `np.nansum(l)`: the same fold skipping the entries
+        on which the declared Bool external `np.isnan` holds; `np.all(np.isnan(l))` / `np.any(…)`: `List.all` / `List.any`;
+      - `len(l)` ↦ `l.length`; `l[i]` ↦ `List.getD l i 0`, `l[-1]` ↦ `List.getLastD l 0`, `l[i] = e` ↦ `List.set`,
+        `a, b, c = l` ↦ `getD 0/1/2` (Python raises IndexError / ValueError outside: the tie theorem states the guard; an
+        index expression with a subtraction is refused); `a[:, j]` on a 'list2' (entry j of every row); `a[idx]` with an
+        index array (`List.map (getD a · 0) idx`); `[e(i) for i in range(n)]`; `[c]*n` ↦ `List.replicate`; list displays;
+        `l.append(e)`; `l op= e`;
+      - declared list-valued externals (`list_externals={'np.argsort': ('argsort', ['list'], 'natlist')}` …) and Bool
+        externals of one value (`bool_externals={'np.isnan': 'isnan'}`): function parameters whose documented behaviour the
+        tie theorem supplies as instances or hypotheses; `attrs` may also declare an expression TEXT (`modes_array[nmode]`,
+        `NEST_stats['modes'][nmode]['mean']`) as a parameter;
+      - a tuple result `returns=['s', 'list']` (`return e1, e2`); `a, _, b = <declared tuple-valued external>` with parts of
+        kind 'skip'.
+  * ABSTRACT OBJECTS.  Kinds 'objlist:T' / 'obj:T' (a type parameter `{T : Type}` of the definition); `methods={'T.m':
+    (leanname, arity)}`: `x.m(a)` is the function parameter `leanname x a`; loops `for x in L`, `for i, x in enumerate(L)`,
+    `for a, b, c in zip(A, B, C)` over lists (of numbers or objects) are left folds (`List.zipIdx`, `List.zip` — which stops at
+    the shortest like Python's `zip`) whose state is the tuple of the variables the body assigns, at the kinds they have on
+    entry; `if c: …; continue` at the top level of the body is `if c: … else: <rest of the body>`;
+    `a, b, … = obj` names the components of an object; a call `f(v)` of such a component is an EFFECT: with
+    `returns='effects'` (`effects_type='T'`) the function's value is the log `[(obj, position of f in the tuple, v), …]`;
+    `out='x'`: the value of the function is the final value of its (mutated) parameter `x`.
+  * float `a == b` / `a != b`: `a ≤ b ∧ b ≤ a` (IEEE: false for NaN, true for +0 == -0); `x is np.nan` with
+    `identity={'np.nan': 'is_np_nan'}`: a Bool parameter of the carrier value (the tie instantiates the carrier with values that
+    carry their identity); `np.ndim(x) == 0` for a scalar variable: true (the model is one element)."""
 import ast
 import re
 
@@ -124,8 +156,7 @@ class FnObj(Fn):
         if len(hits) != 1:
             raise Untranslatable('%s: no unique loop over %s' % (spec['func'], spec['loop_body']))
         loop = hits[0]
-        tnames = [e.id for e in (loop.target.elts if isinstance(loop.target, ast.Tuple) else [loop.target])
-                  if isinstance(e, ast.Name)]
+        tnames = [n.id for n in ast.walk(loop.target) if isinstance(n, ast.Name)]       # (nested tuple targets: all names)
         args = ast.arguments(posonlyargs=[], args=[ast.arg(arg=n) for n in tnames + list(spec.get('free', ()))],
                              vararg=None, kwonlyargs=[], kw_defaults=[], kwarg=None, defaults=[])
         node = ast.FunctionDef(name=outer.name, args=args, body=list(loop.body), decorator_list=[], returns=None,
@@ -191,7 +222,7 @@ class FnObj(Fn):
             if node.id in self.none_params:
                 return 'none'
             return env.get(node.id)
-        if isinstance(node, (ast.Attribute, ast.Subscript)) and ast.unparse(node) in self.attrs:
+        if isinstance(node, (ast.Attribute, ast.Subscript, ast.Call)) and ast.unparse(node) in self.attrs:
             # a declared attribute, or a declared expression text such as `modes_array[nmode]` (spec attrs): a parameter
             return env.get(ast.unparse(node), self.attrs[ast.unparse(node)][1])
         return None
@@ -401,7 +432,8 @@ class FnObj(Fn):
 
     # ------------------------------------------------------------------ lists
     def is_list(self, node, env):
-        if isinstance(node, (ast.Name, ast.Attribute)) or (isinstance(node, ast.Subscript) and ast.unparse(node) in self.attrs):
+        if isinstance(node, (ast.Name, ast.Attribute)) or (isinstance(node, (ast.Subscript, ast.Call))
+                                                         and ast.unparse(node) in self.attrs):
             return self.ekind(node, env) == 'list'
         if isinstance(node, ast.BinOp) and isinstance(node.op, (ast.Add, ast.Sub, ast.Mult, ast.Div)):
             return self.is_list(node.left, env) or self.is_list(node.right, env)
@@ -444,7 +476,7 @@ class FnObj(Fn):
         """a list-valued expression as (base, elem): the list `List.map (fun x__ => elem) base` (elem 'x__': the base itself).
         Element-wise operations on ONE underlying list are fused into one `List.map`; two different lists meet in a
         `List.zipWith` (numpy requires equal lengths there, so nothing is dropped on inputs numpy accepts)."""
-        if isinstance(node, (ast.Name, ast.Attribute, ast.Subscript)) and self.ekind(node, env) == 'list':
+        if isinstance(node, (ast.Name, ast.Attribute, ast.Subscript, ast.Call)) and self.ekind(node, env) == 'list':
             self.need_attr(self.key_of(node), env)
             return self.var(self.key_of(node)), 'x__'
         if isinstance(node, ast.UnaryOp) and isinstance(node.op, ast.UAdd):
@@ -552,11 +584,19 @@ class FnObj(Fn):
         return None
 
     def list_external(self, node, env):
-        nm, kinds, ret = self.list_externals[ast.unparse(node.func)]
-        if node.keywords or len(node.args) != len(kinds):
+        ent = self.list_externals[ast.unparse(node.func)]
+        nm, kinds, ret = ent[:3]
+        kwnames = ent[3] if len(ent) > 3 else ()          # keyword arguments, in the order of the trailing `kinds`
+        fixed = ent[4] if len(ent) > 4 else {}            # keywords that must have exactly this text (not passed on)
+        kws = {k.arg: k.value for k in node.keywords}
+        for k, v in fixed.items():
+            if k not in kws or ast.unparse(kws.pop(k)) != v:
+                self.fail(node, 'external called without the declared keyword %s=%s' % (k, v))
+        if None in kws or set(kws) != set(kwnames) or len(node.args) + len(kwnames) != len(kinds):
             self.fail(node, 'list external called with other arguments than declared')
+        args = list(node.args) + [kws[k] for k in kwnames]
         self.add_param(nm, ' → '.join([self.lean_ty(k) for k in kinds if k != 'skip'] + [self.lean_ty(ret)]))
-        return '(%s %s)' % (nm, ' '.join(self.arg(a, k, env) for a, k in zip(node.args, kinds) if k != 'skip'))
+        return '(%s %s)' % (nm, ' '.join(self.arg(a, k, env) for a, k in zip(args, kinds) if k != 'skip'))
 
     def list_reduce(self, node, env):
         """scalar-valued functions of a list"""
@@ -917,6 +957,19 @@ class FnObj(Fn):
                 env[t.id] = 'rec'                         # a dict local with string keys: a record, one Lean variable per key
                 self.records[t.id] = []
                 return '', False
+            if isinstance(s.value, ast.Dict) and s.value.keys and env.get(t.id) is None and tail is None and not inline \
+                    and all(isinstance(k, ast.Constant) and isinstance(k.value, str) for k in s.value.keys):
+                env[t.id] = 'rec'                         # a dict display: the record of its values
+                self.records[t.id] = []
+                txt = ''
+                for k, v in zip(s.value.keys, s.value.values):
+                    if k.value in self.spec.get('dict_skip', ()):
+                        continue
+                    nm = '%s_%s' % (self.var(t.id), re.sub(r'\W', '_', k.value))
+                    kd = 'list' if self.is_list(v, env) else ('nat' if self.is_nat(v, env) else 's')
+                    self.records[t.id].append((k.value, kd, nm))
+                    txt += '%slet %s := %s\n' % (ind, nm, self.arg(v, kd, env) if kd != 'nat' else self.nat(v, env))
+                return txt, False
         if isinstance(s, ast.Assign) and len(s.targets) == 1 and isinstance(s.targets[0], ast.Subscript) \
                 and isinstance(s.targets[0].value, ast.Name) and env.get(s.targets[0].value.id) == 'rec' \
                 and isinstance(s.targets[0].slice, ast.Constant) and isinstance(s.targets[0].slice.value, str):
